@@ -1,5 +1,6 @@
 import AcraModel.Envelope.Poison
 import AcraModel.Searchable.Index
+import AcraModel.Generated.TranslatorOps
 /-
 The eight encrypt/decrypt operations of AcraTranslator (`cmd/acra-translator/common/service.go`,
 `TranslatorService.{Encrypt, Decrypt, EncryptSym, DecryptSym, EncryptSearchable, DecryptSearchable,
@@ -118,6 +119,30 @@ def decryptSearchable := decryptSearchableWith .struct
 def encryptSymSearchable := encryptSearchableWith .block
 /-- `TranslatorService.DecryptSymSearchable` -/
 def decryptSymSearchable := decryptSearchableWith .block
+
+/-! ### what the model takes from the source, per operation (regenerated: `Generated/TranslatorOps.lean`) -/
+
+/-- the parameters with which the definitions above instantiate `encryptWith` / `decryptWith` /
+`…SearchableWith` for the Go method of that name: (client-id test by length?, envelope kind) -/
+def opSpec : String → Option (Bool × Kind)
+  | "Encrypt" => some (true, .struct)
+  | "Decrypt" => some (true, .struct)
+  | "EncryptSym" => some (false, .block)
+  | "DecryptSym" => some (false, .block)
+  | "EncryptSearchable" => some (false, .struct)
+  | "DecryptSearchable" => some (false, .struct)
+  | "EncryptSymSearchable" => some (false, .block)
+  | "DecryptSymSearchable" => some (false, .block)
+  | _ => none
+
+/-- one row of the regenerated table read the way the model uses it -/
+def rowSpec (row : String × String × Bool × String × String) : Option (Bool × Kind) :=
+  let (_, form, checksFirst, envl, _) := row
+  if !checksFirst then none else
+  match (if form = "len" then some true else if form = "nil" then some false else none),
+        (if envl = "AcraStructEnvelopeID" then some Kind.struct else if envl = "AcraBlockEnvelopeID" then some Kind.block else none) with
+  | some b, some k => some (b, k)
+  | _, _ => none
 
 /-! ### the operations by envelope kind (used by the entry-point table) -/
 
